@@ -488,6 +488,9 @@ def j_program(prefix, al):
     return {"files": files, "main": al["uri"] % 0, "ctx": {"P": "@helper:P", "A": "@helper:A"}}, bases
 
 
+MISSING = -1  # element of a J history: the inherit target of that render names no template
+
+
 def check_history(prefix, seq, seed, st, minimise=True):
     """one fresh lookup and one set of Template objects; the page is rendered once per element of seq, the
     inherit target being base seq[k]; every render must be what the reference says (= what a fresh lookup gives).
@@ -504,6 +507,19 @@ def check_history(prefix, seq, seed, st, minimise=True):
     texts = ir.print_program(prog0)
     R = Runner()
     for step, b in enumerate(seq):
+        if key is not None and b == MISSING:
+            # the dynamic inherit target names no template: a lookup exception, and nothing may be left behind
+            ctxj = dict(prog0["ctx"], **{key: al["uri"] % 97})
+            obs = R.render(texts, prog0["main"], c06_env.resolve_ctx(ctxj), 40)
+            st.evaluations += 1
+            st.oracles["missing-target"] += 1
+            ok = obs[0] == "exc" and obs[1].split(":")[0] in ("TemplateLookupException", "TopLevelLookupException")
+            st.outcomes[("J", len(prefix) + 1, "missing-target", "lookup-exception" if ok else "other")] += 1
+            if not ok:
+                case = {"kind": "history", "seed": seed, "prefix": [list(s) for s in prefix], "seq": list(seq[: step + 1]), "files": dict(texts), "ctx": ctxj}
+                st.violation("history:missing inherit target:%s" % obs[0], case, "an unresolvable inherit target raises TemplateLookupException", expected=["exc", "TemplateLookupException"], observed=list(obs))
+                return step
+            continue
         if key is None:
             prog, ctxj = dict(prog0, main=mains[b]), dict(prog0["ctx"])
         else:
@@ -675,6 +691,10 @@ def _run_job(job, st):
             done = check_history(prefix, seq, seed, st)
             st.traces += 1
             n += max(0, done - 1)
+            # a failing render (unresolvable target) between good ones: first / in the middle / twice in a row
+            for fseq in ([MISSING, 1, 2], [1, MISSING, 1, 2], [4, MISSING, MISSING, 5, 4]):
+                n += max(0, check_history(prefix, fseq, seed, st) - 1)
+                st.traces += 1
             if pi % 29 == 0:
                 st.sample({"family": "J", "prefix": [list(s) for s in prefix], "bases (m1, m2)": [list(b) for b in J_BASES], "renders": len(seq)})
         st.states += n  # ordered pairs of consecutive renders (every ordered pair of distinct bases occurs once)
